@@ -219,6 +219,18 @@ class Impl:
     def op_fn_stat(self, f, xn, vn):
         x, g, v = self.o[f].stationary_point(return_gradient_and_function_value=True); self.o[xn] = x; self.o[vn] = v; return "ok"
     def op_fn_fixed(self, f, xn): self.o[xn] = self.o[f].fixed_point()[0]; return "ok"
+    def op_fn_stat3(self, f, xn, gn, vn):
+        self.o[xn], self.o[gn], self.o[vn] = self.o[f].stationary_point(return_gradient_and_function_value=True); return "ok"
+    def op_fn_fixed2(self, f, xn, vn):
+        x, g, v = self.o[f].fixed_point(); self.o[xn] = x; self.o[vn] = v; return "ok"
+    def op_fn_smul(self, n, c, a): self.o[n] = self.R(c) * self.o[a]; return "ok"
+    def op_fn_div(self, n, a, c): self.o[n] = self.o[a] / self.R(c); return "ok"
+    def op_note(self, *a): return "ok"
+    def op_trace_error(self, *a): return "ok TRACE-ERROR (the example raised while it was building its model): " + " ".join(a)
+    def op_expect_sent(self, h):
+        import hashlib
+        mine = " ## ".join(("C:" + show_cons(c)) if k == "C" else ("P:" + show_psd(c)) for k, c in self.wrapper.sent)
+        return "ok same" if hashlib.sha1(mine.encode()).hexdigest()[:20] == h else "ok DIFFERENT (the replay of the traced operations does not send what the example itself sent)"
     def op_fn_addpoint(self, f, x, g, v): self.o[f].add_point((self.o[x], self.o[g], self.o[v])); return "ok"
     def op_fn_addcons(self, f, c): self.o[f].add_constraint(self.o[c]); return "ok"
     def _mat(self, n, cells): n = int(n); return [[self.o[cells[i * n + j]] for j in range(n)] for i in range(n)]
@@ -869,6 +881,33 @@ def gen_tree(seed):
 
 
 _PAIR = re.compile(r"([A-Za-z0-9_]+):(-?\d+(?:/\d+)?)(?=[,}])")
+_EX_CALLS = None
+def example_calls():
+    """the parameter tuples of the shipped examples: those of the test-suite and 283 neighbouring ones"""
+    global _EX_CALLS
+    if _EX_CALLS is None:
+        here = os.path.dirname(os.path.abspath(__file__))
+        calls = [dict(module=c["module"], func=c["func"], args={k: v for k, v in c["args"].items() if k not in ("wrapper", "solver", "verbose")})
+                 for c in json.load(open(os.path.join(here, "example_calls.json")))]
+        calls += [dict(module=c["module"], func=c["func"], args=c["args"]) for c in json.load(open(os.path.join(here, "ref_neighbours.json")))]
+        _EX_CALLS = calls
+    return _EX_CALLS
+
+
+def gen_examples(seed):
+    """a REAL program: the operations a shipped example performs on the library (traced at run time, harness/extrace.py),
+    then the collection, a dump of what is sent, and the comparison with what the example's own run sent"""
+    import extrace, hashlib
+    calls = example_calls()
+    c = calls[(seed * 7919) % len(calls)]
+    r = extrace.trace(c["module"], c["func"], c["args"])
+    head = "note %s %s" % (c["func"], json.dumps(c["args"], sort_keys=True).replace(" ", ""))
+    if r["error"]:
+        if r["error"].startswith("untraceable"): return ["reset", head, "note " + r["error"].replace(" ", "_")[:150]]
+        return ["reset", head, "trace.error " + r["error"].replace(" ", "_")[:200]]
+    return r["lines"] + [head, "solve.collect", "dump.sent", "expect.sent " + hashlib.sha1(r["sent"].encode()).hexdigest()[:20], "dump.counters"]
+
+
 def _exact_double(fr):
     """a dyadic rational with at most 26 significant bits: sums and PRODUCTS of two such numbers are computed
     exactly in binary64, so a program all of whose coefficients stay of this form has not rounded anywhere"""
@@ -981,7 +1020,7 @@ def run_stream(gen, n, seed0=0):
     return run_programs([(seed, gen(seed)) for seed in range(seed0, seed0 + n)])
 
 
-GENS = dict(tree=gen_tree, cls=gen_class, collect=gen_collect, steps=gen_steps, resolve=gen_resolve, oracle=gen_oracle)
+GENS = dict(examples=gen_examples, tree=gen_tree, cls=gen_class, collect=gen_collect, steps=gen_steps, resolve=gen_resolve, oracle=gen_oracle)
 
 
 def report(which, n, seed0):
